@@ -146,6 +146,7 @@ type FX struct {
 	unknownCalls []string
 	bufSlices map[string]Term
 	searchPred []searchFact
+	estUsed []string
 }
 
 type frame struct {
